@@ -45,6 +45,16 @@ def _mixture_for(ev, frame):
     mx = frame.lookup("mixture")
     if mx is not None:
         return mx
+    # a helper that takes the modelling object (or the mixture) under another name
+    f = frame
+    while f is not None:
+        for v in f.env.values():
+            if isinstance(v, ObjV) and v.cls is not None:
+                if v.cls.name == "Mixture":
+                    return v
+                if v.cls.field("mixture") is not None:
+                    return ev.obj_attr(v, "mixture", frame, None)
+        f = f.parent
     raise poly.Unmodelled("no mixture in scope to convert a composition")
 
 
